@@ -43,6 +43,9 @@ pub struct GenCfg {
     pub damage_on_reopen: bool,
     /// one reopen in three is preceded by a re-stamp of both headers in the legacy format
     pub legacy_restamp: bool,
+    /// the first transaction loads more than 2^16 entries into one bucket (one leaf node of the
+    /// transaction holds them all until commit) and then works on the entries beyond 2^16
+    pub giant_tx: bool,
 }
 
 impl GenCfg {
@@ -98,6 +101,7 @@ impl GenCfg {
             p_many_buckets: *r.pick(&[0, 0, 10, 30]),
             damage_on_reopen: false,
             legacy_restamp: false,
+            giant_tx: false,
         }
     }
 }
@@ -260,6 +264,11 @@ impl Gen {
                     self.steps_left_in_tx = self.r.range(1, 8) as u32;
                     return Some(Step::Begin { rw: false });
                 }
+                if self.cfg.giant_tx && self.txs_done == 1 {
+                    self.steps_left_in_tx = 0;
+                    self.plan_giant();
+                    return Some(Step::Begin { rw: true });
+                }
                 let bulk = self.r.chance(self.cfg.p_bulk as u64, 100) || (self.txs_done == 1 && self.r.chance(1, 2));
                 if self.r.chance(self.cfg.p_many_buckets as u64, 100) {
                     self.steps_left_in_tx = 0;
@@ -350,6 +359,27 @@ impl Gen {
             self.queue.push_back(Step::GetOrCreate { path: vec![], name: Blob::Raw(b"zz-m".to_vec()), via: Via::Vec });
             self.queue.push_back(Step::Put { path: vec![b"zz-m".to_vec()], key: Blob::Raw(b"marker".to_vec()), val: Blob::Pat { tag, len: 12 }, via: Via::Vec });
         }
+        self.queue.push_back(Step::Commit);
+    }
+
+    /// More than 2^16 entries in one bucket inside one transaction.
+    fn plan_giant(&mut self) {
+        *self.macros_used.entry("giant_tx").or_default() += 1;
+        let path: Path = vec![b"G".to_vec()];
+        let key = |i: u32| Blob::Raw((i as u64).to_be_bytes().to_vec());
+        self.queue.push_back(Step::GetOrCreate { path: vec![], name: Blob::Raw(b"G".to_vec()), via: Via::Vec });
+        let n = 65_536 + 40 + self.r.below(400) as u32;
+        for i in 0..n {
+            self.queue.push_back(Step::Put { path: path.clone(), key: key(i), val: Blob::Pat { tag: i, len: 1 + (i % 3) }, via: Via::Vec });
+        }
+        for i in [65_535u32, 65_536, 65_537, n - 1, 3] {
+            self.queue.push_back(Step::Get { path: path.clone(), key: key(i) });
+        }
+        self.queue.push_back(Step::Delete { path: path.clone(), key: key(65_540) });
+        self.queue.push_back(Step::Get { path: path.clone(), key: key(4) });
+        self.queue.push_back(Step::Get { path: path.clone(), key: key(65_540) });
+        self.queue.push_back(Step::Put { path: path.clone(), key: key(65_536), val: Blob::Pat { tag: 7, len: 5 }, via: Via::Vec });
+        self.queue.push_back(Step::Seek { path: path.clone(), key: key(65_530), take: 20, warm: 0 });
         self.queue.push_back(Step::Commit);
     }
 
